@@ -166,8 +166,8 @@ def _set_iter(cls):
     return hook
 
 
-klass("TaskSet", iter=_set_iter("TaskSet"), len="len(self._properties)")
-klass("ResourceSet", iter=_set_iter("ResourceSet"), len="len(self._properties)")
+klass("TaskSet", iter=_set_iter("TaskSet"), len="len(self._properties)", backing_list="_properties")
+klass("ResourceSet", iter=_set_iter("ResourceSet"), len="len(self._properties)", backing_list="_properties")
 
 
 def _node_setitem(ex, st, base, idxnode, v, node):
